@@ -7,6 +7,7 @@ Summaries (inverse, extreme values, mean, inbreeding bounds, PSD predicate) are 
 a different route (residual ``G X - I``, KKT system, python loops, symmetric eigen-solver).
 """
 import math
+import warnings
 
 import numpy
 from hypothesis import strategies as st
@@ -39,6 +40,10 @@ ASSUMPTIONS = [
     "marker weights are 0 or in [1e-6, 100] (no subnormal numbers)",
     "panel sizes: up to 70000 markers (with <= 6 taxa) and up to 300 taxa (with <= 1500 markers); sort_taxa/group_taxa "
     "order = lexicographic (group, then name), ties keep their order (docstring of lexsort_taxa / numpy.lexsort)",
+    "in-place edits of the stored matrix (item assignment, writes through the array the `mat` getter returns, in-place "
+    "operators, apply_jitter, the `mat` setter) keep it a symmetric float64 (n, n) array; afterwards only the view and "
+    "summary clauses are asserted, on the matrix as it is at the time of the call; a read-only stored array may refuse "
+    "the write with ValueError",
 ]
 
 CLASSES = {
@@ -127,7 +132,9 @@ def case_strategy(draw):
             "axis": draw(st.sampled_from([None, 0, 1, [0, 1]])),
             "ij": [draw(st.integers(0, 50)), draw(st.integers(0, 50))],
             # in-place history applied to the computed matrix object before it is queried a second time
-            "inplace": draw(st.lists(st.sampled_from(["reorder", "sort", "group"]), min_size=0, max_size=2))}
+            "inplace": draw(st.lists(st.sampled_from(["reorder", "sort", "group"]), min_size=0, max_size=2)),
+            # in-place edits of the stored matrix after all of that, followed by one more round of queries
+            "edits": draw(edits_strategy(2))}
     if kind != "molecular":
         case["pref"] = draw(_pref_strategy(kind, m))
     if kind == "genweighted":
@@ -208,6 +215,129 @@ def _fsum_mean(vals):
 
 
 # ----------------------------------------------------------------------------------------------------------------------
+# in-place edits of the matrix an object holds (between two rounds of queries)
+# ----------------------------------------------------------------------------------------------------------------------
+# Every route below is public: item assignment of the matrix classes, writing through the array the `mat` getter hands
+# out, the in-place operators, the documented regularisation step apply_jitter(), and (for contrast) the `mat` setter
+# that replaces the array.  Magnitudes are relative to the largest entry, so that an edit matters at every scale.
+EDIT_OPS = ["setitem_diag", "setitem_alldiag", "setitem_pair", "getter_ridge", "getter_scale", "getter_shift",
+            "iop_scale", "jitter", "jitter", "setter_scale"]
+EDIT_REL = [1.0, 0.25, 1e-3, 4.0]
+EDIT_FAC = [2.0, 0.5, 3.0, 0.1]
+EDIT_VAL = [-0.5, 0.0, 0.25, 1.5]
+JITTER_MODES = ["default", "wide", "strict"]
+
+
+@st.composite
+def edits_strategy(draw, max_size=3):
+    k = draw(st.sampled_from([0, 1, 1, 2, max_size]))
+    return [[draw(st.sampled_from(EDIT_OPS)), draw(st.integers(0, 50)), draw(st.integers(0, 50)), draw(st.integers(0, 3)),
+             draw(st.integers(0, 2 ** 16))] for _ in range(k)]
+
+
+def apply_edits(ctx, cm, edits):
+    """change the stored matrix in place through public routes (symmetric edits only); returns the number of edits that
+    changed it.  Nothing is asserted here: what the object must do afterwards is stated by check_views_and_summaries."""
+    changed = 0
+    for (op, a, b, c, seed) in edits:
+        held = cm.mat
+        before = numpy.array(held, dtype=float, order="C", copy=True)
+        n = before.shape[0]
+        amax = float(numpy.abs(before).max())
+        s = amax if amax > 0.0 else 1.0
+        i, j = a % n, b % n
+        writeable = bool(held.flags.writeable)
+        try:
+            if op == "setitem_diag":
+                cm[i, i] = cm[i, i] + EDIT_REL[c] * s
+            elif op == "setitem_alldiag":
+                for t in range(n):
+                    cm[t, t] = cm[t, t] + EDIT_REL[c] * s
+            elif op == "setitem_pair":
+                cm[i, j] = EDIT_VAL[c] * s
+                cm[j, i] = EDIT_VAL[c] * s
+            elif op == "getter_ridge":
+                cm.mat[numpy.diag_indices(n)] += EDIT_REL[c] * s
+            elif op == "getter_scale":
+                m_ = cm.mat
+                m_ *= EDIT_FAC[c]
+            elif op == "getter_shift":
+                cm.mat[...] += EDIT_VAL[c] * s
+            elif op == "iop_scale":
+                alias = cm
+                alias *= EDIT_FAC[c]            # the class' in-place operator (the name may be rebound; `cm` is not)
+            elif op == "setter_scale":
+                cm.mat = EDIT_FAC[c] * cm.mat   # replaces the array object
+            elif op == "jitter":
+                mode = JITTER_MODES[c % len(JITTER_MODES)]
+                numpy.random.seed(seed)         # apply_jitter draws from the global numpy stream (restored by the runner)
+                with warnings.catch_warnings():
+                    warnings.simplefilter("ignore")
+                    if mode == "default":
+                        cm.apply_jitter()
+                    elif mode == "wide":
+                        cm.apply_jitter(eigvaltol=2e-14, minjitter=0.25 * s, maxjitter=s, nattempt=5)
+                    else:
+                        cm.apply_jitter(eigvaltol=0.5 * s, minjitter=0.6 * s, maxjitter=s, nattempt=5)
+                ctx.label("edit_jitter_" + mode)
+        except ValueError:
+            if writeable:
+                raise
+            ctx.label("edit_refused_readonly")
+            continue
+        now = numpy.asarray(cm.mat)
+        did = not (now.shape == before.shape and bool((now == before).all()))
+        if did:
+            changed += 1
+            ctx.label("edit_" + op)
+            ctx.label("edit_jitter_wrote", op == "jitter")
+            ctx.label("edit_kept_array_object", cm.mat is held)
+    return changed
+
+
+class _Tagged:
+    """the same context with every clause and label name prefixed (second round of queries on an edited object)"""
+
+    def __init__(self, ctx, tag):
+        self._c, self._t = ctx, tag
+
+    def check(self, cond, clause, msg=""):
+        return self._c.check(cond, self._t + clause, msg)
+
+    def fail(self, clause, msg=""):
+        return self._c.fail(self._t + clause, msg)
+
+    def label(self, name, cond=True):
+        return self._c.label(self._t + name, cond)
+
+    def __getattr__(self, k):
+        return getattr(self._c, k)
+
+
+def edit_then_query_again(ctx, cm, case):
+    """query (done by the caller) -> change the stored matrix in place -> query again: every view and summary describes
+    the matrix as it is at the time of the call"""
+    edits = case.get("edits") or []
+    if not edits:
+        return
+    if apply_edits(ctx, cm, edits):
+        ctx.label("edited_in_place")
+    check_views_and_summaries(_Tagged(ctx, "edited."), cm, case["ij"], case["axis"], case["eigvaltol"])
+
+
+def _ask_unjudged(cm, what):
+    """the question is asked whatever the conditioning (a caller looks at the minimum inbreeding of a singular VanRaden
+    matrix, regularises it, and asks again); for an ill-conditioned matrix the answer is not judged"""
+    with numpy.errstate(all="ignore"), warnings.catch_warnings():
+        warnings.simplefilter("ignore")
+        for fmt in ("coancestry", "kinship"):
+            try:
+                cm.inverse(fmt) if what == "inverse" else cm.min_inbreeding(fmt)
+            except numpy.linalg.LinAlgError:
+                pass
+
+
+# ----------------------------------------------------------------------------------------------------------------------
 # views and summaries (shared by both sub-checks)
 # ----------------------------------------------------------------------------------------------------------------------
 def check_views_and_summaries(ctx, cm, ij, axis, eigvaltol):
@@ -280,6 +410,8 @@ def check_views_and_summaries(ctx, cm, ij, axis, eigvaltol):
             r2 = float(numpy.abs(X @ (fac * G) - I).max())
             ctx.check(r1 <= rtol and r2 <= rtol, "summary.inverse",
                       lambda: "format %s residual %r/%r tol %r" % (fmt, r1, r2, rtol))
+            if X.flags.writeable:
+                X[...] = 7.25                  # the answer belongs to the caller: scribbling on it changes no later answer
         # minimum attainable inbreeding = min x'Gx s.t. 1'x = 1 = 1/sum(inv(G)); needs a regular KKT system
         K = numpy.zeros((n + 1, n + 1))
         K[:n, :n] = 2 * G
@@ -294,6 +426,11 @@ def check_views_and_summaries(ctx, cm, ij, axis, eigvaltol):
                 ctx.check(abs(got - fac * ref) <= mtol, "summary.min_inbreeding",
                           lambda: "format %s: %r expected %r (tol %r)" % (fmt, got, fac * ref, mtol))
             ctx.label("min_inbreeding_checked")
+        else:
+            _ask_unjudged(cm, "min_inbreeding")
+    else:
+        _ask_unjudged(cm, "inverse")
+        _ask_unjudged(cm, "min_inbreeding")
     ctx.check(cm.mat is held and _eq_arr(cm.mat, G), "summaries_mutated_matrix")
 
     # ---- PSD predicate against the symmetric eigen-solver, away from the tolerance band ---------------------------------
@@ -324,6 +461,13 @@ def check_views_and_summaries(ctx, cm, ij, axis, eigvaltol):
 # the check
 # ----------------------------------------------------------------------------------------------------------------------
 def check_cmat(case, ctx):
+    cm = _check_cmat_core(case, ctx)
+    if cm is not None:
+        # the object has been queried (once or twice); now its matrix is edited in place and it is queried again
+        edit_then_query_again(ctx, cm, case)
+
+
+def _check_cmat_core(case, ctx):
     kind = case["kind"]
     geno = case["geno"]
     calls = build_calls(geno)
@@ -372,9 +516,9 @@ def check_cmat(case, ctx):
             call_from_gmat(case, g)
         except (RuntimeError, ValueError, TypeError, NotImplementedError):
             ctx.label("molecular_ploidy_refused")
-            return
+            return None
         ctx.label("info:molecular_ploidy4_accepted")
-        return
+        return None
 
     try:
         Gref, S = oracle(case, dos, pl)
@@ -460,7 +604,7 @@ def check_cmat(case, ctx):
     # relationship matrix afterwards (whatever memory layout the in-place operation leaves behind)
     ops = case.get("inplace", [])
     if not ops:
-        return
+        return cm
     G0 = numpy.array(G, copy=True)
     cur = list(range(n))
     applied = 0
@@ -484,7 +628,7 @@ def check_cmat(case, ctx):
             cur = [cur[a] for a in order]
         applied += 1
     if not applied:
-        return
+        return cm
     ctx.label("inplace_permuted")
     ctx.label("inplace_nonidentity", cur != list(range(n)))
     ctx.label("inplace_layout_" + _layout_of(cm.mat))
@@ -510,6 +654,7 @@ def check_cmat(case, ctx):
     ctx.check(bool((e5 <= 2 * ptol).all()), "equivariance.inplace_commutes",
               lambda: "ops %s max |permute(f(g)) - f(permute(g))| = %r" % (ops, float(e5.max())))
     ctx.check(_eq_arr(cm.taxa, ptaxa) and _eq_arr(cm.taxa_grp, pgrp), "equivariance.inplace_labels")
+    return cm
 
 
 # ----------------------------------------------------------------------------------------------------------------------
@@ -529,7 +674,11 @@ def matrix_case(draw):
             "taxa": draw(st.booleans()),
             # how the caller's array is laid out in memory
             "layout": draw(st.sampled_from(LAYOUTS)),
-            "reorder": draw(st.one_of(st.none(), st.lists(st.integers(0, 5), min_size=n, max_size=n)))}
+            "reorder": draw(st.one_of(st.none(), st.lists(st.integers(0, 5), min_size=n, max_size=n))),
+            # overall scale 2^k (exact): entries from ~1e-18 to ~1e6
+            "exp2": draw(st.sampled_from([0, 0, 0, 0, -60, -30, 20])),
+            # query -> edit the stored matrix in place -> query again
+            "edits": draw(edits_strategy(3))}
 
 
 LAYOUTS = ["C", "C", "F", "F", "transposed_view", "strided_view", "C_readonly", "F_readonly"]
@@ -558,6 +707,8 @@ def check_matrix(case, ctx):
     B = numpy.array(case["B"], dtype=float).reshape(n, -1)
     G = (B @ B.T) / 16.0 + case["shift"] * numpy.eye(n) + case["offdiag"] * (numpy.ones((n, n)) - numpy.eye(n))
     G = 0.5 * (G + G.T)
+    G = G * 2.0 ** case.get("exp2", 0)
+    ctx.label("scale_2^%d" % case.get("exp2", 0))
     taxa = numpy.array(["t%d" % i for i in range(n)], dtype=object) if case["taxa"] else None
     layout = case.get("layout", "C")
     cm = CLASSES[case["cls"]][0](mat=lay_out(G, layout), taxa=taxa)
@@ -582,6 +733,7 @@ def check_matrix(case, ctx):
     ctx.check(_eq_arr(cm.mat, G), "constructor_keeps_matrix")
     check_views_and_summaries(ctx, cm, case["ij"], case["axis"], case["eigvaltol"])
     ctx.check(_eq_arr(cm.mat, G), "summaries_mutated_matrix")
+    edit_then_query_again(ctx, cm, case)
 
 
 # ----------------------------------------------------------------------------------------------------------------------
@@ -822,7 +974,8 @@ SUBCHECKS = [
                               "selection_is_nonidentity_permutation", "selection_is_proper_subset",
                               "well_conditioned", "min_inbreeding_checked", "psd_predicate_expected_true",
                               "psd_predicate_expected_false", "has_identical_taxa", "ploidy1", "ploidy4",
-                              "inplace_permuted", "inplace_nonidentity")),
+                              "inplace_permuted", "inplace_nonidentity", "edited_in_place", "edit_jitter_wrote",
+                              "edited.min_inbreeding_checked")),
     SubCheck("summaries", check_matrix, matrix_case(), quick=400, thorough=4000, shards_quick=2,
              rule="generated symmetric matrices B B'/16 + shift I + offdiag (1-7 taxa; positive definite, singular and "
                   "indefinite) wrapped in each coancestry class, handed over row-major / column-major / as a transposed "
@@ -830,7 +983,9 @@ SUBCHECKS = [
              required_labels=("indefinite", "positive_definite", "singular_psd", "min_inbreeding_checked",
                               "psd_predicate_expected_true", "psd_predicate_expected_false",
                               "stored_column_major_3plus", "layout_strided_view", "layout_F_readonly",
-                              "reordered_in_place")),
+                              "reordered_in_place", "edited_in_place", "edit_jitter_wrote", "edit_kept_array_object",
+                              "edit_setitem_alldiag", "edit_getter_ridge", "edit_iop_scale",
+                              "edited.min_inbreeding_checked", "edited.well_conditioned")),
     SubCheck("sizes", check_big, big_case(), quick=40, thorough=150, shards_quick=4,
              rule="segment-constant panels (2-5 genotype classes x 1-6 segments, mostly homozygous) expanded to 100-70000 "
                   "markers x 2-6 taxa or 100-300 taxa x 1-1500 markers, sizes concentrated on 2^7, 2^8, 2^15, 2^16 +-1; "
